@@ -328,9 +328,13 @@ func (c *xsyncMap) GetAndDelete(k string) (interface{}, bool) {
 		return nil, false
 	}
 	i := v.(item)
+	expired := i.expired()
 	ec := c.EvictedCallback()
 	if ec != nil {
 		ec(k, i.v)
+	}
+	if expired {
+		return nil, false
 	}
 	return i.v, true
 }
